@@ -108,6 +108,53 @@ def with_builtin(pre, builtin):
     return 'abi <abi/4.0>,\n' + '\n'.join(table) + '\n' + '\n'.join(own) + '\n'
 
 
+def _drift_one(a):
+    """does the built-in definition of one variable denote something else than the shipped definition, the variables it
+    refers to taken from the shipped tunables on both sides (so that only the variable's OWN definition is judged)?"""
+    name, table, base = a
+    m = re.search(r'^@\{%s\}\s*=\s*(.*)$' % re.escape(name), table, re.M)
+    head = 'abi <abi/4.0>,\ninclude <tunables/global>\n'
+    A, e1 = dfax.compile_text(head + 'profile p {\n  /probe/@{%s}/x r,\n}\n' % name, base)
+    B, e2 = dfax.compile_text(head + '@{verif_probe} = %s\nprofile p {\n  /probe/@{verif_probe}/x r,\n}\n' % m.group(1), base)
+    if A is None:
+        return name, 'not-shipped'
+    if B is None:
+        return name, 'table-value-rejected'
+    cex, st, tr = dfax.equiv(dfax.profiles(A)[0].file, dfax.profiles(B)[0].file, dfax.full_label)
+    return name, (None if cex is None else 'differs')
+
+
+def drifting_variables(builtin, bases):
+    """{base: {variable name: how}} -- built-in variables whose value in aa.DefaultTunables does not denote the same
+    set of strings as the tunables shipped in that tree (decided by the reference parser + DFA equivalence)"""
+    names = re.findall(r'^@\{(\w+)\}\s*=', builtin, re.M)
+    jobs = [(n, builtin, b) for b in bases for n in names]
+    with ProcessPoolExecutor(C.NPROC) as pool:
+        res = list(pool.map(_drift_one, jobs, chunksize=4))
+    out = {b: {} for b in bases}
+    for (n, _, b), (_, how) in zip(jobs, res):
+        if how:
+            out[b][n] = how
+    return out
+
+
+def referenced(pre, builtin):
+    """built-in variables a preamble's @{exec_path} definitions reach (transitively through the table and own definitions)"""
+    defs = {}
+    for text in (builtin, pre):
+        for m in re.finditer(r'^@\{(\w+)\}\s*\+?=\s*(.*)$', text, re.M):
+            defs.setdefault(m.group(1), []).append(m.group(2))
+    seen = set(); todo = [k for k in defs if k.startswith('exec_path')]
+    while todo:
+        n = todo.pop()
+        if n in seen:
+            continue
+        seen.add(n)
+        for v in defs.get(n, []):
+            todo += re.findall(r'@\{(\w+)\}', v)
+    return seen
+
+
 def run(tier):
     ev = C.Evidence(PROP, tier); fnd = C.Findings(PROP)
     dists = cfgx.DISTS if tier == 'thorough' else ['arch', 'debian']
@@ -216,17 +263,24 @@ def run(tier):
         jobs.append(('att', 'generated ' + ' ; '.join(lines), pre + 'profile p @{exec_path} {\n}\n', pre + 'profile p ' + lit + ' {\n}\n', base0))
     with ProcessPoolExecutor(C.NPROC) as pool:
         results = list(pool.map(_one, jobs, chunksize=4))
+    drift = drifting_variables(builtin, sorted({j[4] for j in jobs}))
+    ev.add(builtin_variables_out_of_sync={os.path.basename(b): sorted(d) for b, d in drift.items()})
     st = tr = 0
-    for kind, key, verdict, detail, s, t in results:
+    for job, (kind, key, verdict, detail, s, t) in zip(jobs, results):
         st += s; tr += t
         who = key.split(' ', 1)[1] if not key.startswith('generated') else key
         if verdict == 'COMPILE':
             fnd.report('reference-parser-rejects %s' % who, '%s: the reference parser cannot compile one side: %s' % (key, detail), {'case': key})
         elif verdict == 'DRIFT':
             cex, side = detail
-            fnd.report('%s cause=built-in-variable-table-drift' % ('attachment-differs' if kind == 'att' else 'exec-rules-differ'),
-                       '%s: %s is matched by the %s; the built text equals what the builder\'s built-in variable table (aa.DefaultTunables) yields, which differs from the tunables shipped for this target' % (key, cex, side),
-                       {'case': key, 'path': cex, 'side': side})
+            # which out-of-sync built-in variables does this @{exec_path} reach? the finding is identified by them, so a
+            # variable that goes out of sync later is a new violation, not a reproduction of a listed one
+            vs = sorted(referenced(job[2], builtin) & set(drift[job[4]]))
+            for v in vs or ['none']:
+                fnd.report('%s cause=built-in-variable-table-drift var=%s' % ('attachment-differs' if kind == 'att' else 'exec-rules-differ', v),
+                           '%s: %s is matched by the %s; the built text equals what the builder\'s built-in variable table (aa.DefaultTunables) yields, and the table\'s @{%s} does not denote what the tunables shipped for this target define (all out-of-sync variables this @{exec_path} reaches: %s)' % (
+                               key, cex, side, v, ', '.join(vs) or 'none the harness can name'),
+                           {'case': key, 'path': cex, 'side': side, 'variables': vs})
         elif verdict == 'DIFF':
             cex, side = detail
             if kind == 'att':
